@@ -15,6 +15,13 @@ import Hw.Topo.RenderTop
 import Hw.Topo.RenderCounts
 import Hw.Topo.RenderCover
 import Hw.Topo.RenderSets
+import Hw.Topo.RenderPU
+import Hw.Topo.RestrictExists
+import Hw.Topo.RestrictAllowed
+import Hw.Topo.RestrictUnique
+import Hw.Topo.RestrictCover
+import Hw.Topo.RestrictNoOrder
+import Hw.Topo.HistoryLemmas
 import Hw.Attr.MemAttrsState
 namespace Hw.Props.C08
 open Hw.Topo Hw.Topo.Restrict Hw.Gen.Restrict
@@ -894,5 +901,332 @@ example : ∃ t, treeOf demoDump = .ok t := by
   cases hh : treeOf demoDump with
   | ok t => exact ⟨t, rfl⟩
   | error e => rw [hh] at h; cases h
+
+/-! ### B2: the PU level is the last level; a PU and a NUMA node remain -/
+
+/-- (1) **the PU level is the last level**: for every typed tree with PUs as leaves, the invariant hwloc_connect_levels relies on
+    holds (`puNsT`: along normal children types are in range and PUs have no normal children), and a level of PU type can only be
+    the last level that hwloc_connect_levels builds — PUs wait in the frontier until nothing else is left (`top0` is the first
+    non-PU object and the find_same_type fold only moves to objects with normal children) and have no children to continue with -/
+theorem C08_render_pu_level_last (t : Tree) (ht : typedT t = true) (hl : puLeafT t = true) :
+    puNsT t = true ∧ puLevelLast t = true ∧
+    ∀ (k : Nat) (hk : k < (normalLevels t).length), ((normalLevels t)[k]).1 = tPU → k + 1 = (normalLevels t).length :=
+  ⟨puNs_of_typed.1 t ht hl, puLevelLast_of_typed t ht hl, fun k hk => normalLevels_pu_last t ht hl k hk⟩
+
+/-- (1) hence **normal-level-types** (every normal level has a normal type, the PU type only at the last depth, the Machine type
+    only at depth 0; every special level sits at the depth of its type) for the rendering of every typed tree with PUs as leaves,
+    a Machine root and no second Machine, and **pu-level-deepest** (the last level is a non-empty PU level and every PU is in it)
+    when the tree contains a PU -/
+theorem C08_render_pu_level (t : Tree) (ht : typedT t = true) (hl : puLeafT t = true) (h : Hdr) (ex : RObj → Extra) :
+    (t.obj.type = tMACHINE → machineOnce t → topClause "normal-level-types" (render t h ex) (mkAux (render t h ex)) = true) ∧
+    (isNormal t.obj.type = true → (∃ x ∈ objsT t, x.type = tPU) →
+      topClause "pu-level-deepest" (render t h ex) (mkAux (render t h ex)) = true) :=
+  ⟨fun hm h1 => render_normal_level_types t ht hl hm h1 h ex, fun hr hpu => render_pu_level_deepest t ht hl hr hpu h ex⟩
+
+/-- (1) after ANY restrict call on an input that meets the tree hypotheses (all consequences of WF): normal-level-types, and
+    pu-level-deepest as soon as the result contains a PU -/
+theorem C08_restrict_pu_level (t : Topo) (flagsT : Nat) (s : CSet) (flags : Nat) (ex : RObj → Extra)
+    (ht : typedT t.tree = true) (hm : t.tree.obj.type = tMACHINE) (hl : puLeafT t.tree = true) (hs : mergeSafe t)
+    (h1m : machineOnce t.tree) :
+    topClause "normal-level-types" (afterDump t flagsT s flags ex) (mkAux (afterDump t flagsT s flags ex)) = true ∧
+    ((∃ x ∈ objsT (restrict t s flags).1.tree, x.type = tPU) →
+      topClause "pu-level-deepest" (afterDump t flagsT s flags ex) (mkAux (afterDump t flagsT s flags ex)) = true) := by
+  have hr : isNormal t.tree.obj.type = true := by rw [hm]; decide
+  have h1 := typed_restrict t s flags ht hr
+  have h2 := restrict_leaf_root t s flags ht hr hl hs
+  have hm' : (restrict t s flags).1.tree.obj.type = tMACHINE := by
+    have := congrArg RObj.type h2.2.1; exact this.trans hm
+  exact ⟨render_normal_level_types _ h1.1 h2.1 hm' (machineOnce_restrict t s flags h1m) _ ex,
+    fun hpu => render_pu_level_deepest _ h1.1 h2.1 h1.2 hpu _ ex⟩
+
+/-- (2) **a PU and a NUMA node remain** after a successful call, through level merging, as soon as the input has one protected PU
+    and one protected NUMA node: for the call's own kind an object whose os_index is in S, for the other kind an object that is
+    not (REMOVE_CPULESS / REMOVE_MEMLESS and CPU-less / memory-less afterwards) -/
+theorem C08_restrict_keeps_pu_and_numa (t : Topo) (s : CSet) (flags : Nat) (p : Params) (hp : plan t s flags = some p)
+    (hret : (restrict t s flags).2 = .ok) (hok : okT t.tree = true) (hty : typedT t.tree = true)
+    (hr : isNormal t.tree.obj.type = true) (hleaf : puLeafT t.tree = true) (hpus : puSetsT t.tree = true)
+    (hnumas : numaSetsT t.tree = true) (hs : mergeSafe t) :
+    ((∃ x ∈ objsT t.tree, x.type = tPU ∧ (if p.byNode = true then protPUn p x = true else s.mem x.osidx.toNat = true)) →
+      ∃ y ∈ objsT (restrict t s flags).1.tree, y.type = tPU) ∧
+    ((∃ x ∈ objsT t.tree, x.type = tNUMA ∧ (if p.byNode = true then s.mem x.osidx.toNat = true else protNUMA p x = true)) →
+      ∃ y ∈ objsT (restrict t s flags).1.tree, y.type = tNUMA) :=
+  ⟨restrict_pu_exists t s flags p hp hret hok hty hr hleaf hpus hs, restrict_numa_exists_tree t s flags p hp hret hok hty hr hnumas⟩
+
+/-- (2) **where the protected objects come from**: hwloc_topology_restrict refuses (EINVAL) a set that does not meet the allowed
+    cpuset (nodeset with BYNODESET), so a planned call has an index of the allowed set in S; when the allowed set is covered by the
+    objects of that kind (`coverT`: C01 clauses allowed-sets + cpuset-is-disjoint-union-of-children + pu-cpuset resp.
+    nodeset-decomposition + numa-nodeset; evaluated on every well-formed BEFORE dump, not derived from WF here) that index is the
+    os_index of a PU (NUMA node): the protected object of the call's own kind.  For the other kind every object is protected
+    when the flag word has no REMOVE_CPULESS / REMOVE_MEMLESS. -/
+theorem C08_restrict_protected_exists (t : Topo) (s : CSet) (flags : Nat) (p : Params) (hp : plan t s flags = some p) :
+    (p.byNode = false → coverT t.allowedCpu tPU t.tree = true → ∃ x ∈ objsT t.tree, x.type = tPU ∧ s.mem x.osidx.toNat = true) ∧
+    (p.byNode = true → coverT t.allowedNode tNUMA t.tree = true → ∃ x ∈ objsT t.tree, x.type = tNUMA ∧ s.mem x.osidx.toNat = true) ∧
+    (p.rmExempt = false → ∀ x : RObj, (x.type = tPU → protPUn p x = true) ∧ (x.type = tNUMA → protNUMA p x = true)) :=
+  ⟨(own_kind_protected t s flags p hp).1, (own_kind_protected t s flags p hp).2, fun hx x => prot_of_not_exempt p hx x⟩
+
+/-- (2) every well-formed dump has a PU and a NUMA node, and so has its tree -/
+theorem C08_wf_has_pu_and_numa (d : Dump) (h : WF d) (t : Tree) (ht : treeOf d = .ok t) :
+    (∃ x ∈ objsT t, x.type = tPU) ∧ (∃ x ∈ objsT t, x.type = tNUMA) := wf_tree_has h t ht
+
+/-- **C08_restrict_from_wf_levels_partial** — with NO hypothesis besides `WF d` (plus: a tree could be rebuilt, and the API fact on
+    filters), for every set and every flag word, with `D` the rendering of the model's result:
+    (a) normal-level-types holds for `D` (every call, refused or not);
+    (b) a refused call leaves pu-level-deepest and numa-exists;
+    (c) after a successful call: pu-level-deepest holds when the input has a protected PU, numa-exists when it has a protected NUMA
+        node; the protected object of the OTHER kind exists from `WF d` alone when the flag word has no REMOVE_CPULESS /
+        REMOVE_MEMLESS (`p.rmExempt = false`); the protected object of the call's OWN kind exists when the allowed set is covered
+        (`coverT`).  So: by nodeset without REMOVE_MEMLESS pu-level-deepest, by cpuset without REMOVE_CPULESS numa-exists follow from
+        `WF d` alone; by cpuset pu-level-deepest and by nodeset numa-exists follow from `WF d` and `coverT`.
+    `_partial`: `coverT` is a hypothesis here (its CPU half is derived from `WF d` in C08_wf_cover_pu, its NUMA half is not), and under
+    REMOVE_CPULESS / REMOVE_MEMLESS the object of the other kind that survives is exhibited only in C08_restrict_other_kind_protected
+    (used by C08_restrict_from_wf_top_partial, which covers every flag word). -/
+theorem C08_restrict_from_wf_levels_partial (d : Dump) (h : WF d) (t : Tree) (ht : treeOf d = .ok t)
+    (hf1 : filterOf d.filters tPU ≠ filterKeepStructure) (hf2 : filterOf d.filters tMACHINE ≠ filterKeepStructure)
+    (s : CSet) (flags : Nat) (ex : RObj → Extra) :
+    let T : Topo := { tree := t, allowedCpu := d.allowedCpuset.getD 0, allowedNode := d.allowedNodeset.getD 0, filters := d.filters }
+    let D := afterDump T d.flags s flags ex
+    topClause "normal-level-types" D (mkAux D) = true ∧
+    ((restrict T s flags).2 ≠ .ok → topClause "pu-level-deepest" D (mkAux D) = true ∧ topClause "numa-exists" D (mkAux D) = true) ∧
+    (∀ p, plan T s flags = some p → (restrict T s flags).2 = .ok →
+      ((∃ x ∈ objsT t, x.type = tPU ∧ (if p.byNode = true then protPUn p x = true else s.mem x.osidx.toNat = true)) →
+        topClause "pu-level-deepest" D (mkAux D) = true) ∧
+      ((∃ x ∈ objsT t, x.type = tNUMA ∧ (if p.byNode = true then s.mem x.osidx.toNat = true else protNUMA p x = true)) →
+        topClause "numa-exists" D (mkAux D) = true) ∧
+      (p.byNode = true → p.rmExempt = false → topClause "pu-level-deepest" D (mkAux D) = true) ∧
+      (p.byNode = false → p.rmExempt = false → topClause "numa-exists" D (mkAux D) = true) ∧
+      (p.byNode = false → coverT T.allowedCpu tPU t = true → topClause "pu-level-deepest" D (mkAux D) = true) ∧
+      (p.byNode = true → coverT T.allowedNode tNUMA t = true → topClause "numa-exists" D (mkAux D) = true)) := by
+  intro T D
+  obtain ⟨hok, hty, hm, hr, hleaf, hpus, hnumas⟩ := wf_treeOf_full h t ht
+  obtain ⟨_, h1m, hsafe⟩ := C08_wf_mergeSafe d h t ht (d.allowedCpuset.getD 0) (d.allowedNodeset.getD 0) hf1 hf2
+  obtain ⟨hasPU, hasNUMA⟩ := wf_tree_has h t ht
+  have lv := C08_restrict_pu_level T d.flags s flags ex hty hm hleaf hsafe h1m
+  refine ⟨lv.1, ?_, ?_⟩
+  · intro hne
+    have e : (restrict T s flags).1 = T := restrict_unchanged_of_not_ok T s flags hne
+    exact ⟨lv.2 (by rw [e]; exact hasPU), render_numa_exists _ (by rw [e]; exact hasNUMA) _ ex⟩
+  · intro p hp hret
+    have keep := C08_restrict_keeps_pu_and_numa T s flags p hp hret hok hty hr hleaf hpus hnumas hsafe
+    have prot := C08_restrict_protected_exists T s flags p hp
+    have hPU : (∃ x ∈ objsT t, x.type = tPU ∧ (if p.byNode = true then protPUn p x = true else s.mem x.osidx.toNat = true)) →
+        topClause "pu-level-deepest" D (mkAux D) = true := fun hex => lv.2 (keep.1 hex)
+    have hNUMA : (∃ x ∈ objsT t, x.type = tNUMA ∧ (if p.byNode = true then s.mem x.osidx.toNat = true else protNUMA p x = true)) →
+        topClause "numa-exists" D (mkAux D) = true := fun hex => render_numa_exists _ (keep.2 hex) _ ex
+    refine ⟨hPU, hNUMA, ?_, ?_, ?_, ?_⟩
+    · intro hb hx
+      obtain ⟨x, hxm, hxt⟩ := hasPU
+      exact hPU ⟨x, hxm, hxt, by rw [hb]; simp only [if_true]; exact ((prot.2.2 hx) x).1 hxt⟩
+    · intro hb hx
+      obtain ⟨x, hxm, hxt⟩ := hasNUMA
+      exact hNUMA ⟨x, hxm, hxt, by rw [hb]; simp only [Bool.false_eq_true, if_false]; exact ((prot.2.2 hx) x).2 hxt⟩
+    · intro hb hc
+      obtain ⟨x, hxm, hxt, hxs⟩ := prot.1 hb hc
+      exact hPU ⟨x, hxm, hxt, by rw [hb]; simp only [Bool.false_eq_true, if_false]; exact hxs⟩
+    · intro hb hc
+      obtain ⟨x, hxm, hxt, hxs⟩ := prot.2.1 hb hc
+      exact hNUMA ⟨x, hxm, hxt, by rw [hb]; simp only [if_true]; exact hxs⟩
+
+/-- non-vacuity of the B2 theorems: `demo` / `demoDump` meet every hypothesis (WF, filters, typed, PUs are leaves, mergeSafe, one
+    Machine: examples above), the allowed sets are covered, a call by cpuset to PU 1 is planned and succeeds, and the result has its
+    PU level last -/
+example : coverT demo.allowedCpu tPU demo.tree = true ∧ coverT demo.allowedNode tNUMA demo.tree = true ∧
+    puNsT demo.tree = true ∧ puLevelLast demo.tree = true ∧ machineOnce demo.tree ∧
+    (plan demo ⟨2, false⟩ flagAdaptMisc).isSome = true ∧ (restrict demo ⟨2, false⟩ flagAdaptMisc).2 = .ok ∧
+    puLevelLast (restrict demo ⟨2, false⟩ flagAdaptMisc).1.tree = true ∧
+    (normalLevels (restrict demo ⟨2, false⟩ flagAdaptMisc).1.tree).map (·.1) = [tMACHINE, tCORE, tPU] := by decide +kernel
+
+/-- (2) the protected object of the OTHER kind under REMOVE_CPULESS / REMOVE_MEMLESS: hwloc_topology_restrict refuses the call when
+    every allowed node (PU) would be dropped (`inside allowed dropped`), so some allowed index is not the os_index of a dropped
+    object; when the allowed set is covered (`coverT`), the NUMA node (PU) that carries it is not CPU-less (memory-less) afterwards,
+    i.e. protected -/
+theorem C08_restrict_other_kind_protected (t : Topo) (s : CSet) (flags : Nat) (p : Params) (hp : plan t s flags = some p)
+    (hx : p.rmExempt = true) :
+    (p.byNode = false → coverT t.allowedNode tNUMA t.tree = true → ∃ x ∈ objsT t.tree, x.type = tNUMA ∧ protNUMA p x = true) ∧
+    (p.byNode = true → coverT t.allowedCpu tPU t.tree = true → ∃ x ∈ objsT t.tree, x.type = tPU ∧ protPUn p x = true) :=
+  other_kind_protected t s flags p hp hx
+
+/-- (3) **allowed-sets**: the tree-level clause (`allowedOKT`: the root carries sets, the allowed sets are inside — without
+    INCLUDE_DISALLOWED equal to — the root's sets) holds for the tree of every WF dump, is preserved by every restrict call (the
+    same dropped sets are subtracted from the root's sets and from the allowed sets; level merging never touches the root object),
+    and gives the WF clause allowed-sets of the rendering -/
+theorem C08_restrict_allowed_sets (d : Dump) (h : WF d) (t : Tree) (ht : treeOf d = .ok t) :
+    allowedOKT { tree := t, allowedCpu := d.allowedCpuset.getD 0, allowedNode := d.allowedNodeset.getD 0, filters := d.filters }
+      (flagIncludeDisallowed d) = true ∧
+    (∀ (T : Topo) (s : CSet) (flags : Nat) (incl : Bool), okT T.tree = true → typedT T.tree = true → isNormal T.tree.obj.type = true →
+      puLeafT T.tree = true → mergeSafe T → allowedOKT T incl = true → allowedOKT (restrict T s flags).1 incl = true) ∧
+    (∀ (T : Topo) (fl : Nat) (ex : RObj → Extra), allowedOKT T (fl % 2 == 1) = true →
+      topClause "allowed-sets" (render T.tree ⟨fl, T.filters, some T.allowedCpu, some T.allowedNode⟩ ex)
+        (mkAux (render T.tree ⟨fl, T.filters, some T.allowedCpu, some T.allowedNode⟩ ex)) = true) :=
+  ⟨wf_allowedOK h t ht, fun T s flags incl hok hty hr hl hs ha => allowedOK_restrict T s flags incl hok hty hr hl hs ha,
+   fun T fl ex ha => render_allowed_sets T fl ha ex⟩
+
+theorem restrict_ok_plan (t : Topo) (s : CSet) (flags : Nat) (h : (restrict t s flags).2 = .ok) : ∃ p, plan t s flags = some p := by
+  cases hp : plan t s flags with
+  | some p => exact ⟨p, rfl⟩
+  | none => unfold restrict at h; rw [hp] at h; cases h
+
+/-- the four topology-level clauses of this section -/
+def provedTopClausesB2 : List String := ["normal-level-types", "pu-level-deepest", "numa-exists", "allowed-sets"]
+
+/-- **C08_restrict_from_wf_top_partial** — from `WF d` (a tree could be rebuilt, the API fact on filters) and the coverage of the
+    allowed nodeset by the NUMA nodes (`coverT … tNUMA`, a consequence of the C01 clause nodeset-decomposition that is evaluated, not
+    derived; the coverage of the allowed cpuset by the PUs IS derived from `WF d`: C08_wf_cover_pu): for EVERY
+    set and EVERY flag word — REMOVE_CPULESS / REMOVE_MEMLESS included, refused calls included — the rendering of the model's result
+    satisfies normal-level-types, pu-level-deepest, numa-exists and allowed-sets.  With the 11 clauses of
+    C08_restrict_from_wf_partial: 15 of the 18 topology-level clauses (the other three are the uniqueness clauses
+    pu-osindex-unique / numa-osindex-unique / gp-index-unique).
+    `_partial`: `coverT` of the allowed NODESET stays a hypothesis. -/
+theorem C08_restrict_from_wf_top_partial (d : Dump) (h : WF d) (t : Tree) (ht : treeOf d = .ok t)
+    (hf1 : filterOf d.filters tPU ≠ filterKeepStructure) (hf2 : filterOf d.filters tMACHINE ≠ filterKeepStructure)
+    (hcn : coverT (d.allowedNodeset.getD 0) tNUMA t = true)
+    (s : CSet) (flags : Nat) (ex : RObj → Extra) :
+    let T : Topo := { tree := t, allowedCpu := d.allowedCpuset.getD 0, allowedNode := d.allowedNodeset.getD 0, filters := d.filters }
+    let D := afterDump T d.flags s flags ex
+    ∀ c ∈ provedTopClausesB2, topClause c D (mkAux D) = true := by
+  intro T D
+  have hcp : coverT (d.allowedCpuset.getD 0) tPU t = true := wf_cover_pu h t ht
+  obtain ⟨hok, hty, hm, hr, hleaf, hpus, hnumas⟩ := wf_treeOf_full h t ht
+  obtain ⟨_, h1m, hsafe⟩ := C08_wf_mergeSafe d h t ht (d.allowedCpuset.getD 0) (d.allowedNodeset.getD 0) hf1 hf2
+  have base := C08_restrict_from_wf_levels_partial d h t ht hf1 hf2 s flags ex
+  have hall : topClause "allowed-sets" D (mkAux D) = true :=
+    render_allowed_sets (restrict T s flags).1 d.flags
+      (allowedOK_restrict T s flags _ hok hty hr hleaf hsafe (wf_allowedOK h t ht)) ex
+  have hboth : topClause "pu-level-deepest" D (mkAux D) = true ∧ topClause "numa-exists" D (mkAux D) = true := by
+    cases hret : (restrict T s flags).2 with
+    | einval => exact base.2.1 (by rw [hret]; decide)
+    | rootRemoved => exact base.2.1 (by rw [hret]; decide)
+    | ok =>
+      obtain ⟨p, hp⟩ := restrict_ok_plan T s flags hret
+      obtain ⟨hPU, hNUMA, hPUn, hNUMAc, hPUc, hNUMAn⟩ := base.2.2 p hp hret
+      cases hb : p.byNode with
+      | false =>
+        refine ⟨hPUc hb hcp, ?_⟩
+        cases hx : p.rmExempt with
+        | false => exact hNUMAc hb hx
+        | true =>
+          obtain ⟨x, hxm, hxt, hxp⟩ := (other_kind_protected T s flags p hp hx).1 hb hcn
+          exact hNUMA ⟨x, hxm, hxt, by rw [hb]; simp only [Bool.false_eq_true, if_false]; exact hxp⟩
+      | true =>
+        refine ⟨?_, hNUMAn hb hcn⟩
+        cases hx : p.rmExempt with
+        | false => exact hPUn hb hx
+        | true =>
+          obtain ⟨x, hxm, hxt, hxp⟩ := (other_kind_protected T s flags p hp hx).2 hb hcp
+          exact hPU ⟨x, hxm, hxt, by rw [hb]; simp only [if_true]; exact hxp⟩
+  intro c hc
+  simp only [provedTopClausesB2, List.mem_cons, List.mem_nil_iff, or_false] at hc
+  rcases hc with rfl | rfl | rfl | rfl
+  · exact base.1
+  · exact hboth.1
+  · exact hboth.2
+  · exact hall
+
+/-- non-vacuity of C08_restrict_from_wf_top_partial / C08_restrict_other_kind_protected: `demoDump` meets every hypothesis (WF, the
+    filter facts, a tree: examples above; coverage: here), `demoMerge` is covered too and its call by nodeset with REMOVE_MEMLESS is
+    planned with `rmExempt`, and the rendering of the result of that call satisfies the four clauses -/
+example : (match treeOf demoDump with
+      | .ok t => coverT (demoDump.allowedCpuset.getD 0) tPU t && coverT (demoDump.allowedNodeset.getD 0) tNUMA t
+      | .error _ => false) = true ∧
+    coverT demoMerge.allowedCpu tPU demoMerge.tree = true ∧ coverT demoMerge.allowedNode tNUMA demoMerge.tree = true ∧
+    ((plan demoMerge ⟨1, false⟩ (flagByNodeset ||| flagRemoveMemless)).map (fun p => p.byNode && p.rmExempt)) = some true ∧
+    allowedOKT demoMerge false = true ∧
+    provedTopClausesB2.all (fun c =>
+      topClause c (afterDump demoMerge 0 ⟨1, false⟩ (flagByNodeset ||| flagRemoveMemless) (fun _ => {}))
+        (mkAux (afterDump demoMerge 0 ⟨1, false⟩ (flagByNodeset ||| flagRemoveMemless) (fun _ => {})))) = true := by decide +kernel
+
+/-- (3) the three **uniqueness clauses** pu-osindex-unique, numa-osindex-unique, gp-index-unique: `osUniqueT` (os_index unique among
+    the PUs / NUMA nodes of the tree) holds for the tree of every WF dump and is preserved by every restrict call (restrict creates
+    no object, changes neither type nor os_index, and every object of the result is an object of the input: `cnt_restrict`); gp
+    uniqueness is part of `mergeSafe`; the rendering of a tree that satisfies them satisfies the three WF clauses -/
+theorem C08_restrict_unique (d : Dump) (h : WF d) (t : Tree) (ht : treeOf d = .ok t) :
+    (osUniqueT tPU t ∧ osUniqueT tNUMA t) ∧
+    (∀ (ty : Nat) (T : Topo) (s : CSet) (flags : Nat), osUniqueT ty T.tree → osUniqueT ty (restrict T s flags).1.tree) ∧
+    (∀ (T : Tree) (hd : Hdr) (ex : RObj → Extra),
+      (osUniqueT tPU T → topClause "pu-osindex-unique" (render T hd ex) (mkAux (render T hd ex)) = true) ∧
+      (osUniqueT tNUMA T → topClause "numa-osindex-unique" (render T hd ex) (mkAux (render T hd ex)) = true) ∧
+      (((objsT T).map (·.gp)).Nodup → topClause "gp-index-unique" (render T hd ex) (mkAux (render T hd ex)) = true)) :=
+  ⟨wf_osUnique h t ht, fun ty T s flags hu => osUnique_restrict ty T s flags hu, fun T hd ex => render_unique T hd ex⟩
+
+/-- **C08_restrict_wf_top_partial** — the topology-level half of `WF (afterDump …)`, complete: from `WF d` (a tree could be rebuilt, the
+    API fact on filters) and the coverage of the allowed nodeset (`coverT … tNUMA`), for EVERY set and EVERY flag word the rendering of the
+    model's result satisfies EVERY topology-level clause of `WF` (all 18 entries of `topClauses`: the 11 of
+    C08_restrict_from_wf_partial, the 4 of C08_restrict_from_wf_top_partial, the 3 uniqueness clauses).
+    `_partial` with respect to C08_restrict_wf: `coverT` of the allowed nodeset is a hypothesis, `treeOf d = .ok t` is a hypothesis (it does NOT follow from
+    `WF d`: WF does not force parents to precede their children in the object list, which `treeOf` requires), and of the 29
+    object-level clauses 14 are proved (`provedObjClauses`); the set / memory / attribute clauses are still judged by wfCheck. -/
+theorem C08_restrict_wf_top_partial (d : Dump) (h : WF d) (t : Tree) (ht : treeOf d = .ok t)
+    (hf1 : filterOf d.filters tPU ≠ filterKeepStructure) (hf2 : filterOf d.filters tMACHINE ≠ filterKeepStructure)
+    (hcn : coverT (d.allowedNodeset.getD 0) tNUMA t = true)
+    (s : CSet) (flags : Nat) (ex : RObj → Extra) :
+    let T : Topo := { tree := t, allowedCpu := d.allowedCpuset.getD 0, allowedNode := d.allowedNodeset.getD 0, filters := d.filters }
+    let D := afterDump T d.flags s flags ex
+    ∀ c ∈ topClauses, c.2 D (mkAux D) = true := by
+  intro T D c hc
+  have a := (C08_restrict_from_wf_partial d h t ht hf1 hf2 s flags ex).2.2.1
+  have b := C08_restrict_from_wf_top_partial d h t ht hf1 hf2 hcn s flags ex
+  obtain ⟨_, _, hsafe⟩ := C08_wf_mergeSafe d h t ht (d.allowedCpuset.getD 0) (d.allowedNodeset.getD 0) hf1 hf2
+  obtain ⟨_, hty, _, hr, hleaf, _, _⟩ := wf_treeOf_full h t ht
+  have hu := wf_osUnique h t ht
+  have u := render_unique (restrict T s flags).1.tree
+    ⟨d.flags, (restrict T s flags).1.filters, some (restrict T s flags).1.allowedCpu, some (restrict T s flags).1.allowedNode⟩ ex
+  have u1 := u.1 (osUnique_restrict tPU T s flags hu.1)
+  have u2 := u.2.1 (osUnique_restrict tNUMA T s flags hu.2)
+  have u3 := u.2.2 (restrict_leaf_root T s flags hty hr hleaf hsafe).2.2.1
+  have hname : c.1 ∈ topClauses.map (·.1) := List.mem_map_of_mem hc
+  rw [← Hw.Topo.Hist.topClause_of_mem c hc]
+  have hcases : c.1 ∈ provedTopClauses ∨ c.1 ∈ provedTopClausesB2 ∨ c.1 = "pu-osindex-unique" ∨ c.1 = "numa-osindex-unique" ∨
+      c.1 = "gp-index-unique" := by
+    have hall : ∀ n ∈ topClauses.map (·.1), n ∈ provedTopClauses ∨ n ∈ provedTopClausesB2 ∨ n = "pu-osindex-unique" ∨
+        n = "numa-osindex-unique" ∨ n = "gp-index-unique" := by decide
+    exact hall c.1 hname
+  rcases hcases with h1 | h1 | h1 | h1 | h1
+  · exact a c.1 h1
+  · exact b c.1 h1
+  · rw [h1]; exact u1
+  · rw [h1]; exact u2
+  · rw [h1]; exact u3
+
+/-- non-vacuity: the uniqueness hypotheses hold for demoMerge, and all 18 topology-level clauses hold for the rendering of the result
+    of its call by nodeset with REMOVE_MEMLESS (level merging included) -/
+example : osUniqueT tPU demoMerge.tree ∧ osUniqueT tNUMA demoMerge.tree ∧
+    topClauses.all (fun c => c.2 (afterDump demoMerge 0 ⟨1, false⟩ (flagByNodeset ||| flagRemoveMemless) (fun _ => {}))
+      (mkAux (afterDump demoMerge 0 ⟨1, false⟩ (flagByNodeset ||| flagRemoveMemless) (fun _ => {})))) = true := by decide +kernel
+
+/-- (3) two more object-level clauses of the result from `WF d` alone: **type-in-range** (typing is preserved) and
+    **not-filtered-out** (`notFilteredT` holds for the tree of a WF dump; restrict produces no object of a new type and does not
+    touch the filters) — 16 object-level clauses with `provedObjClauses` -/
+theorem C08_restrict_type_filter (d : Dump) (h : WF d) (t : Tree) (ht : treeOf d = .ok t) (s : CSet) (flags : Nat) (ex : RObj → Extra) :
+    let T : Topo := { tree := t, allowedCpu := d.allowedCpuset.getD 0, allowedNode := d.allowedNodeset.getD 0, filters := d.filters }
+    let D := afterDump T d.flags s flags ex
+    notFilteredT d.filters t = true ∧
+    ∀ o ∈ D.objs, objClause "type-in-range" D (mkAux D) o = true ∧ objClause "not-filtered-out" D (mkAux D) o = true := by
+  intro T D
+  obtain ⟨_, hty, _, hr, _, _, _⟩ := wf_treeOf_full h t ht
+  have hn := wf_notFiltered h t ht
+  refine ⟨hn, fun o ho => ?_⟩
+  have r := render_type_filter (restrict T s flags).1.tree
+    ⟨d.flags, (restrict T s flags).1.filters, some (restrict T s flags).1.allowedCpu, some (restrict T s flags).1.allowedNode⟩ ex o ho
+  exact ⟨r.1 (typed_restrict T s flags hty hr).1, r.2 (notFiltered_restrict T s flags hn)⟩
+
+/-- (2) **the allowed cpuset of a well-formed dump is covered by the PUs** (`coverT` for the CPU side, derived): in a WF dump every
+    index of the cpuset of a normal object is the os_index of a PU (induction over the depth: cpuset-is-disjoint-union-of-children
+    pushes a bit down to a child, depth-increases bounds the descent, a childless normal object with a non-empty cpuset is a PU with
+    cpuset {os_index}), the allowed cpuset is inside the root's cpuset, and the tree lists every dump object.  Hence, from `WF d`
+    ALONE: a planned restrict by cpuset has a PU with os_index in S, and leaves a PU -/
+theorem C08_wf_cover_pu (d : Dump) (h : WF d) (t : Tree) (ht : treeOf d = .ok t) :
+    coverT (d.allowedCpuset.getD 0) tPU t = true ∧
+    ∀ (s : CSet) (flags : Nat) (p : Params),
+      plan { tree := t, allowedCpu := d.allowedCpuset.getD 0, allowedNode := d.allowedNodeset.getD 0, filters := d.filters } s flags = some p →
+      p.byNode = false → ∃ x ∈ objsT t, x.type = tPU ∧ s.mem x.osidx.toNat = true :=
+  ⟨wf_cover_pu h t ht, fun s flags p hp hb => (own_kind_protected _ s flags p hp).1 hb (wf_cover_pu h t ht)⟩
+
+/-- (4) **`treeOf d = .ok t` is NOT a consequence of `WF d`**, so it has to stay a hypothesis of the `…_from_wf…` theorems: `orderDump`
+    (Machine [Core [PU] + NUMA + Misc] with the Misc object listed before its parent Core) satisfies every clause of WF, and `treeOf`,
+    which folds the object list from the right and needs every parent before its children, refuses it.  No WF clause orders the ids
+    across levels (Hw.Topo.WFTree: `T_order` "is NOT a consequence of WF"); the dumps of harness/dump.h are numbered in DFS order. -/
+theorem C08_treeOf_not_from_wf : ∃ d : Dump, WF d ∧ ∀ t, treeOf d ≠ .ok t :=
+  ⟨orderDump, by decide +kernel, fun t h => by
+    have e : (match treeOf orderDump with | .ok _ => true | .error _ => false) = false := by decide +kernel
+    rw [h] at e; cases e⟩
 
 end Hw.Props.C08
